@@ -258,6 +258,8 @@ def python_source(s: dg.DScn):
     if s.model_methods:
         out.append("class Model:  # M(Model())")
         out += [f"    def {m}(self): ..." for m in s.model_methods]
+    if s.subclass:
+        out.append("class Sub(M): pass  # the diagrams are drawn for Sub")
     if s.fill is not None or s.pen is not None:
         out.append(f"class G(DotGraphMachine): state_active_fillcolor = {s.fill!r}; state_active_penwidth = {s.pen!r}")
     return out
